@@ -2,7 +2,7 @@
 # tools/seed_matrix.sh: run every seeded change against the check of the property it breaks
 # (current machinery, quick tier) and record the outcome in seeded/<id>/result.json.
 cd /verif
-for d in seeded/*/; do
+for d in ${SEED_DIRS:-seeded/*/}; do
   id=$(basename $d)
   p=$(python3 -c "import json;print(json.load(open('$d/meta.json'))['breaks_property'])" 2>/dev/null) || continue
   line=$(./tools/seedrun.sh $d/patch.diff $p 2>&1 | tail -1)
